@@ -214,6 +214,23 @@ func sxgPol(args []string) error {
 	r := rand.New(rand.NewSource(seed()))
 	kc := newKeyCert("p256", nil, 0)
 	ctx := &verCtx{prefix: "p"}
+	if len(args) > 0 && args[0] == "dst" {
+		// run by the check under TZ values with daylight saving: lifetimes around 7 days on signatures dated next to a
+		// transition (the cap is 604800 seconds)
+		ctx.prefix = "z"
+		for _, ver := range version.AllVersions {
+			for _, d := range []int64{1520251200, 1540900800, 1521633600, 1540296000} {
+				for _, l := range []int64{604799, 604800, 604801, 606600, 608399, 601200} {
+					sc := newScenario(r, ver)
+					sc.sp.date, sc.sp.expires = d, d+l
+					sc.tOff = l / 2
+					sc.names = []string{"dst date=" + itoa(int(d)), "lifetime=" + itoa(int(l))}
+					runScenario(ctx, sc, kc)
+				}
+			}
+		}
+		return nil
+	}
 	for _, ver := range version.AllVersions {
 		ds := deviations(r, ver)
 		apply := func(sc *scenario, d deviation) {
